@@ -6,10 +6,13 @@ package main
 // re-imported one (the recording carries both projections).
 
 import (
+	"bytes"
 	"encoding/json"
 	"fmt"
 	servertypes "github.com/cosmos/cosmos-sdk/server/types"
+	simtestutil "github.com/cosmos/cosmos-sdk/testutil/sims"
 	"github.com/cosmos/cosmos-sdk/types/module"
+	"math/big"
 	"reflect"
 	"time"
 
@@ -39,7 +42,65 @@ func sectionsOf(appState json.RawMessage) (map[string]interface{}, error) {
 }
 
 // ExportImport returns the result record and, on success, the world of the re-imported chain.
-func (w *World) ExportImport() (res J, nw *World) {
+func (w *World) ExportImport() (res J, nw *World) { return w.ExportImportMutated("") }
+
+// mutateGenesis edits the exported document into one whose books do not balance: the enterprise escrow account's bank
+// balance is dropped ("escrow-dropped"), one coin short ("escrow-short") or one coin over ("escrow-extra"); the bank's
+// supply section is left for the bank to recompute. Such a document must be refused at import.
+func (w *World) mutateGenesis(appState json.RawMessage, how string) (json.RawMessage, error) {
+	var doc map[string]json.RawMessage
+	if err := json.Unmarshal(appState, &doc); err != nil {
+		return nil, err
+	}
+	var bank map[string]json.RawMessage
+	if err := json.Unmarshal(doc["bank"], &bank); err != nil {
+		return nil, err
+	}
+	var bals []map[string]interface{}
+	dec := json.NewDecoder(bytes.NewReader(bank["balances"]))
+	dec.UseNumber()
+	if err := dec.Decode(&bals); err != nil {
+		return nil, err
+	}
+	esc := w.EntAddr.String()
+	var out []map[string]interface{}
+	found := false
+	for _, b := range bals {
+		if b["address"] == esc {
+			found = true
+			if how == "escrow-dropped" {
+				continue
+			}
+			coins, _ := b["coins"].([]interface{})
+			for _, c := range coins {
+				cm := c.(map[string]interface{})
+				if cm["denom"] == "nund" {
+					n, _ := new(big.Int).SetString(fmt.Sprint(cm["amount"]), 10)
+					if how == "escrow-short" {
+						n.Sub(n, big.NewInt(1))
+					} else {
+						n.Add(n, big.NewInt(1))
+					}
+					cm["amount"] = n.String()
+				}
+			}
+		}
+		out = append(out, b)
+	}
+	if !found {
+		return nil, fmt.Errorf("mutateGenesis: the escrow account holds nothing")
+	}
+	bz, _ := json.Marshal(out)
+	bank["balances"] = bz
+	bank["supply"] = json.RawMessage("[]")
+	bb, _ := json.Marshal(bank)
+	doc["bank"] = bb
+	return json.Marshal(doc)
+}
+
+// ExportImportMutated: with mutate != "" the exported document is edited (mutateGenesis) before the import; the import is
+// then expected to be refused and the original chain simply carries on.
+func (w *World) ExportImportMutated(mutate string) (res J, nw *World) {
 	res = J{"ok": false, "exportOk": false, "importPanic": false, "invOk": false, "idempotent": false}
 	exp, err := func() (e struct {
 		AppState json.RawMessage
@@ -70,11 +131,30 @@ func (w *World) ExportImport() (res J, nw *World) {
 		return res, nil
 	}
 	res["exportOk"] = true
+	if mutate != "" {
+		m, err := w.mutateGenesis(exp.AppState, mutate)
+		if err != nil {
+			res["log"] = trunc(err.Error())
+			res["mutateFailed"] = true
+			return res, nil
+		}
+		exp.AppState = m
+	}
 
 	n := &World{Gen: w.Gen, Accts: w.Accts, ByAddr: w.ByAddr, Names: w.Names, ValSet: w.ValSet, opts: w.opts,
 		EntAddr: w.EntAddr, StreamAddr: w.StreamAddr, FeeAddr: w.FeeAddr, DistrAddr: w.DistrAddr, GovAddr: w.GovAddr, GrpAddr: w.GrpAddr}
 	n.Gen.DB = ""
 	n.DB = dbm.NewMemDB()
+	if mutate != "" {
+		// the module's own import check is what must refuse the document: the node skips the crisis module's assertion
+		// of all invariants at genesis (--x-crisis-skip-assert-invariants, as operators of large chains do)
+		o := simtestutil.AppOptionsMap{}
+		for k, v := range w.opts {
+			o[k] = v
+		}
+		o["x-crisis-skip-assert-invariants"] = true
+		n.opts = o
+	}
 	n.App = n.newApp(n.DB)
 	var vals []abci.ValidatorUpdate
 	for _, v := range exp.Vals {
@@ -95,6 +175,11 @@ func (w *World) ExportImport() (res J, nw *World) {
 	if perr != nil {
 		res["importPanic"] = true
 		res["log"] = trunc(fmt.Sprint(perr))
+		return res, nil
+	}
+	if mutate != "" {
+		// the inconsistent document was accepted
+		res["acceptedMutated"] = true
 		return res, nil
 	}
 	n.App.Commit()
